@@ -1,4 +1,5 @@
 import Sourmash.Lemmas.DatasetsMerge
+import Sourmash.Lemmas.IndexExtend
 /-! Property C09 — index construction is independent of scheduling and of build increments.
 Property theorems only; helper lemmas live in `Sourmash/Lemmas/Datasets*.lean`, `Lemmas/Index*.lean`.
 
@@ -116,6 +117,95 @@ example :
     ∧ lookupIds listCodec (evalKey listCodec none
       [[.leaf (asBytes listCodec (unique 1)), .leaf (asBytes listCodec (unique 0)),
         .leaf (asBytes listCodec (unique 0))]]) = [0, 1] := by decide
+
+/-! ### T-disk_schedule_free — every schedule and every merge grouping gives the sequential reference build -/
+
+/-- T-disk_schedule_free.  `sched` is any interleaving of the per-dataset write programs of
+`map_hashes_colors` (one `merge(HASHES, h, {d})` per hash, then `merge(PROCESSED, {d})`), `g` any way
+RocksDB groups, nests and orders the merge operands of each key.  Then every key of HASHES decodes to
+exactly the ascending list of datasets containing the hash — `refIds C h`, the sequential reference
+build — and PROCESSED to all dataset ids; every stored value is a valid encoding. -/
+theorem disk_schedule_free {c : ManyCodec} (hc : c.Lawful) (C : Coll) (hn : C.length ≤ 2 ^ 32)
+    (sched : List Write) (hs : Interleaving (programs C (List.range C.length)) sched)
+    (g : Grouping) (hg : GroupingOK g) :
+    (∀ h, lookupIds c ((applyWrites c {} sched g).hashes h) = refIds C h) ∧
+    lookupIds c (applyWrites c {} sched g).processed = List.range C.length :=
+  (build_from_scratch hc C hn sched hs g hg).2
+
+/-- T-disk_schedule_free for `RevIndex::create` as modelled (`createDb`): whatever `choices` the scheduler
+makes and however the operands are grouped, the index is the reference index -/
+theorem create_schedule_free {c : ManyCodec} (hc : c.Lawful) (C : Coll) (hn : C.length ≤ 2 ^ 32)
+    (choices : List Nat) (g : Grouping) (hg : GroupingOK g) :
+    (∀ h, lookupIds c ((createDb c C choices g).hashes h) = refIds C h) ∧
+    lookupIds c (createDb c C choices g).processed = List.range C.length := by
+  rw [createDb_eq]
+  exact disk_schedule_free hc C hn _ (runSchedule_interleaving choices _) g hg
+
+/-- hence two builds of the same collection under different schedules and groupings answer every lookup alike -/
+theorem create_deterministic {c : ManyCodec} (hc : c.Lawful) (C : Coll) (hn : C.length ≤ 2 ^ 32)
+    (ch₁ ch₂ : List Nat) (g₁ g₂ : Grouping) (hg₁ : GroupingOK g₁) (hg₂ : GroupingOK g₂) (h : Nat) :
+    lookupIds c ((createDb c C ch₁ g₁).hashes h) = lookupIds c ((createDb c C ch₂ g₂).hashes h) := by
+  rw [(create_schedule_free hc C hn ch₁ g₁ hg₁).1 h, (create_schedule_free hc C hn ch₂ g₂ hg₂).1 h]
+
+/-- the hypotheses are satisfiable: the sequential schedule is an interleaving, one flat full merge is a grouping -/
+theorem sequential_is_schedule (ps : List (List Write)) : Interleaving ps ps.flatten := Interleaving.sequential ps
+/-- every sequence of scheduler choices yields an interleaving -/
+theorem run_is_schedule (ps : List (List Write)) (choices : List Nat) : Interleaving ps (runSchedule ps choices) :=
+  runSchedule_interleaving choices ps
+/-- one flat full merge of all operands is a grouping -/
+theorem flat_grouping_ok : GroupingOK (fun _ ops => [ops.map MTree.leaf]) := by
+  intro _ ops
+  have : ∀ l : List Bytes, MTree.leavesList (l.map MTree.leaf) = l := by
+    intro l
+    induction l with
+    | nil => rfl
+    | cons a t ih => simp [MTree.leavesList, MTree.leaves, ih]
+  simp [forestLeaves, this]
+example : lookupIds listCodec ((createDb listCodec [[5, 7], [7], []] [1, 0, 0, 2] (fun _ ops => [ops.map MTree.leaf])).hashes 7)
+    = [0, 1] := by decide
+
+/-! ### T-extend — create(C₁) then update(C₁ ++ C₂) = create(C₁ ++ C₂) -/
+
+/-- T-extend.  `old` are the records of the indexed collection `C₁`, the new collection's records start
+with them (`old ++ ext`).  Under any schedules and groupings of both builds, `update` is accepted and the
+result has the HASHES and PROCESSED of the sequential reference build of `C₁ ++ C₂` … -/
+theorem extend_is_reference {c : ManyCodec} (hc : c.Lawful) (C₁ C₂ : Coll) (hn : (C₁ ++ C₂).length ≤ 2 ^ 32)
+    {ρ : Type} [BEq ρ] [LawfulBEq ρ] (old ext : List ρ) (hold : old.length = C₁.length)
+    (ch₁ ch₂ : List Nat) (g₁ g₂ : Grouping) (hg₁ : GroupingOK g₁) (hg₂ : GroupingOK g₂) :
+    ∃ db, updateDb c (createDb c C₁ ch₁ g₁) old (old ++ ext) (C₁ ++ C₂) ch₂ g₂ = some db ∧
+      (∀ h, lookupIds c (db.hashes h) = refIds (C₁ ++ C₂) h) ∧
+      lookupIds c db.processed = List.range (C₁ ++ C₂).length :=
+  update_after_create hc C₁ C₂ hn old ext hold ch₁ ch₂ g₁ g₂ hg₁ hg₂
+
+/-- … i.e. it is indistinguishable from an index created from scratch over the larger collection -/
+theorem extend_eq_create {c : ManyCodec} (hc : c.Lawful) (C₁ C₂ : Coll) (hn : (C₁ ++ C₂).length ≤ 2 ^ 32)
+    {ρ : Type} [BEq ρ] [LawfulBEq ρ] (old ext : List ρ) (hold : old.length = C₁.length)
+    (ch₁ ch₂ ch₃ : List Nat) (g₁ g₂ g₃ : Grouping) (hg₁ : GroupingOK g₁) (hg₂ : GroupingOK g₂) (hg₃ : GroupingOK g₃) :
+    ∃ db, updateDb c (createDb c C₁ ch₁ g₁) old (old ++ ext) (C₁ ++ C₂) ch₂ g₂ = some db ∧
+      (∀ h, lookupIds c (db.hashes h) = lookupIds c ((createDb c (C₁ ++ C₂) ch₃ g₃).hashes h)) ∧
+      lookupIds c db.processed = lookupIds c (createDb c (C₁ ++ C₂) ch₃ g₃).processed := by
+  obtain ⟨db, h1, h2, h3⟩ := extend_is_reference hc C₁ C₂ hn old ext hold ch₁ ch₂ g₁ g₂ hg₁ hg₂
+  have hcr := create_schedule_free hc (C₁ ++ C₂) hn ch₃ g₃ hg₃
+  exact ⟨db, h1, fun h => by rw [h2 h, hcr.1 h], by rw [h3, hcr.2]⟩
+
+/-! ### T-superset — an extension whose leading records differ is rejected -/
+
+/-- T-superset: `check_superset` (zip + all) fails iff some leading record — a position present in both
+collections — differs.  (A collection *shorter* than the indexed one with equal leading records is
+accepted by the code: `zip` stops at the shorter list.) -/
+theorem superset_fails_iff {ρ : Type} [BEq ρ] [LawfulBEq ρ] (self other : List ρ) :
+    checkSuperset self other = false ↔ ∃ i, ∃ (h1 : i < self.length) (h2 : i < other.length), self[i] ≠ other[i] :=
+  checkSuperset_false_iff self other
+
+/-- T-superset, consequence: `update` returns the error and writes nothing exactly in that case -/
+theorem update_rejected_iff {ρ : Type} [BEq ρ] [LawfulBEq ρ] (c : ManyCodec) (db : Db) (old new : List ρ)
+    (C : Coll) (ch : List Nat) (g : Grouping) :
+    updateDb c db old new C ch g = none ↔ ∃ i, ∃ (h1 : i < old.length) (h2 : i < new.length), old[i] ≠ new[i] := by
+  rw [← superset_fails_iff]
+  unfold updateDb
+  cases checkSuperset old new <;> simp
+example : checkSuperset [1, 2, 3] [1, 9, 3, 4] = false ∧ checkSuperset [1, 2] [1, 2, 5] = true
+    ∧ checkSuperset [1, 2, 3] [1, 2] = true := by decide
 
 /-! ### the processed set: `extend` by one id (what `create` / `update` do) -/
 
